@@ -2,7 +2,7 @@
 into the evidence file. The checks themselves live in lean/Insim/Props/<ID>.lean (theorems),
 harness/src/<id>.rs (correspondence streams + implementation-side oracle) and translate/*.py."""
 
-TRANSLATORS = ["vehicle", "durations", "track"]
+TRANSLATORS = ["vehicle", "durations", "track", "codepages"]
 
 TRUSTED_COMMON = [
     "Lean 4.33.0 kernel; axioms allowed: propext, Classical.choice, Quot.sound (audited with #print axioms on every run); no sorry/admit/native_decide/bv_decide/own axioms (grep on every run)",
@@ -114,5 +114,31 @@ PROPS = {
         ],
         "rule": "gv.parse per string (characters given as code points with the real is_numeric flag), gv.print per successfully parsed finite version, gv.cmp per ordered pair of a pool of parsed versions; distinct = distinct op text",
         "assumptions": ["versions compared by Ord were obtained by parsing (non-negative, non-NaN numbers)", "revision numbers fit usize (anything larger is a parse error)"],
+    },
+    "C10": {
+        "level_text": "Lean theorems on the hand model of to_lossy_bytes / to_lossy_string over an abstract family of ten codecs with four recorded laws (decNil, ascii, decEnc, noCaret): caret-free text whose characters each exist in some codepage survives encode-then-decode for every length and every order of codepage switches, for every search order listing all ten codepages; ASCII passes through byte for byte; a character in no codepage behaves exactly like a literal '?' (neighbours unchanged); bytes after ^X are decoded with X's codec until the next marker and ^8 selects Latin-1 and is kept; both functions are total by construction. The marker -> encoding table, marker set, propagated marker, default and search order are regenerated from codepages.rs on every run and proved equal to LFS's table (L G C E T B J H S K = 1252 1253 1251 1250 1254 1257 932 950 936 949). Tied by correspondence: encoder driven with the real per-character encodability, decoder plan resolved through encoding_rs; oracle against the specification's encodings over every repertoire character, every byte after every marker, BOM-looking prefixes, random text and bytes.",
+        "level_note": "Trusted: Lean kernel; translate/codepages.py; the harness incl. its second pass that runs encoding_rs on the model's decode plan. encoding_rs's ten tables are abstracted to the four laws; the harness enumerates, on every run, every (codepage, character) at which a law fails in the real tables (trail byte 0x5E in Shift_JIS/GBK/Big5/EUC-KR, WHATWG Shift_JIS's non-inverting characters) — texts avoiding those pairs are in the proved domain, and failures at those pairs are the recorded findings.",
+        "technique": "Lean 4 proof (induction with a decoder-state invariant over an abstract codec family; decide on the regenerated table) + translator + differential correspondence with a plan-resolution pass",
+        "translators": ["codepages"],
+        "resolve": True,
+        "trusted": [
+            "translate/codepages.py: as_lfs_codepage arms, is_lfs_codepage set, propagate_lfs_codepage, VALID_CODEPAGES_FOR_ENCODING, DEFAULT_CODEPAGE; checks the marker scan is the tuple_windows test the model assumes",
+            "hand-modelled, tied by the correspondence run only: the encoder's state machine and fallback, the decoder's marker scan and segment dispatch",
+            "modelled not verified: encoding_rs 0.8 encoders/decoders (laws decNil, ascii, decEnc, noCaret; exceptions enumerated on every run and reported in the evidence under law-exceptions.*)",
+            "the specification's table (marker letter -> Windows codepage) is a transcription from memory of LFS's documentation; Windows codepages 932/936/949/950 are identified with encoding_rs's Shift_JIS/GBK/EUC-KR/Big5",
+        ],
+        "rule": "cp.enc per string (with the real per-character encodability for the code's own table inline), cp.dec per byte string (model prints the decode plan, resolved by the harness through encoding_rs); distinct = distinct op text",
+        "assumptions": ["'exists in at least one LFS codepage' is judged against the ten Windows codepages of the specification, not against the table the code selects"],
+        "timeout": {"quick": 1200, "thorough": 14400},
+    },
+    "C12": {
+        "level_text": "Lean theorems over all strings (lists of code points, any length), fast paths included: unescape(escape s) = s; escaped output contains none of | * : \\ / ? \" < > # ; strip equals 'tokenise into ^^, ^digit, plain characters and drop the ^digit tokens' (an independent statement of 'removes exactly the colour codes and leaves escaped carets untouched'); strip is idempotent. The end-to-end clause (escaped text of encodable characters survives the codepage path) is decided by the oracle on the real functions and is false on the pinned tree for four recorded ingredients (known findings); outside them it is checked exhaustively over class alphabets and on random Unicode text. Tied by correspondence on all strings over a 27-character class alphabet up to length 3 (thinned to length 4/5) and a 5-character alphabet up to length 7/9.",
+        "level_note": "Trusted: Lean kernel; the harness. The wire clause composes C10's abstract codec family with escaping; its counter-examples are recorded as findings rather than proved impossible, so that clause is labelled partial: proved for the pure functions, observed (not proved) for the composition.",
+        "technique": "Lean 4 proof (functional induction over escape/unescape/strip) + differential correspondence; oracle with finding-signature attribution for the wire clause",
+        "trusted": [
+            "hand-modelled, tied by the correspondence run only: escape, unescape (escaping.rs), strip (colours.rs), including their fast paths",
+        ],
+        "rule": "esc/unesc/strip lines per string; the oracle additionally evaluates the wire clause on the real escape -> to_lossy_bytes -> to_lossy_string -> unescape chain; distinct = distinct op text",
+        "assumptions": ["'encodable characters' = characters that exist in at least one of the ten Windows codepages of the specification (and no NUL)"],
     },
 }
